@@ -31,10 +31,10 @@ EXTENDS Naturals, Sequences, FiniteSets, TLC
 
 AsIs == {"RecordExisting", "NoCheckOnWrite", "KwDstIsSrc"}
 
-(* ---- the path tree: root "" (the sandbox directory itself) and 7 nodes ---- *)
-Paths == {"a", "ag", "an", "g", "n", "ng", "e"}
-Par  == [a |-> "", ag |-> "a", an |-> "a", g |-> "", n |-> "", ng |-> "n", e |-> ""]
-Base == [a |-> "a", ag |-> "g", an |-> "n", g |-> "g", n |-> "n", ng |-> "g", e |-> "e"]
+(* ---- the path tree: root "" (the sandbox directory itself) and 8 nodes ---- *)
+Paths == {"a", "ag", "an", "g", "n", "ng", "e", "eg"}
+Par  == [a |-> "", ag |-> "a", an |-> "a", g |-> "", n |-> "", ng |-> "n", e |-> "", eg |-> "e"]
+Base == [a |-> "a", ag |-> "g", an |-> "n", g |-> "g", n |-> "n", ng |-> "g", e |-> "e", eg |-> "g"]
 Join(d, b) == IF \E x \in Paths : Par[x] = d /\ Base[x] = b
               THEN CHOOSE x \in Paths : Par[x] = d /\ Base[x] = b ELSE "none"
 Kids(p) == {x \in Paths : Par[x] = p}
@@ -44,9 +44,9 @@ DirV == [k |-> "dir", t |-> <<>>]
 FileV(t) == [k |-> "file", t |-> t]
 Tok == <<1>>                      \* what a write / append adds
 
-(* sandbox before the execution: a/ (with file a/g), file g, empty dir e; n, n/g, a/n absent *)
+(* sandbox before the execution: a/ (with file a/g), file g, empty dir e; n, n/g, a/n, e/g absent *)
 Tree0 == [a |-> DirV, ag |-> FileV(<<8>>), an |-> Absent, g |-> FileV(<<7>>),
-          n |-> Absent, ng |-> Absent, e |-> DirV]
+          n |-> Absent, ng |-> Absent, e |-> DirV, eg |-> Absent]
 
 Kind(fs, p) == IF p = "" THEN "dir" ELSE IF p = "none" THEN "absent" ELSE fs[p].k
 Exists(fs, p) == Kind(fs, p) # "absent"
